@@ -155,6 +155,42 @@ def check_program(acc, stmts, layout, max_dev, pair_limit=0, extra_options=None)
                 acc.count("deviations")
 
 
+def check_symjump(acc):
+    """--symbolic-jump: JUMP to a symbolic destination.  Every valid destination the input can denote gets a path, and so does the input
+    that denotes none of them (the EVM halts with an invalid jump)."""
+    from mc import asm
+
+    ret = lambda v: [("push", v), "PUSH0", "MSTORE", ("push", 32), "PUSH0", "RETURN"]
+    for extra in ([], [("label", "c")] + ret(3)):
+        code = asm.assemble(["PUSH0", "CALLDATALOAD", "JUMP", ("label", "a")] + ret(1) + [("label", "b")] + ret(2) + extra)
+        spec = {"accounts": {"0xaaaa": {"code": code.hex(), "balance": None}}, "target": 0xAAAA, "caller": 0xB1, "origin": 0xB1, "value": 0,
+                "calldata": [["sym", "x", 32]], "options": {"symbolic_jump": True}}
+        dests = [i for i, b in enumerate(code) if b == 0x5B]
+        grid = [{"x": v} for v in dests + [0, 1, dests[0] + 1, dests[-1] + 1, len(code), 2**255, 2**256 - 1]]
+        name = f"symbolic-jump:{len(dests)}-destinations"
+        acc.count("programs")
+        for force_all in (False, True):
+            hdriver.check_seam.start()
+            hdriver.check_seam.force_all = force_all
+            try:
+                results = hdriver.run_halmos(spec)
+            except Exception as e:
+                acc.violation(f"crash:{name}", f"{name}: halmos raised {type(e).__name__}: {e}", {"symjump": True})
+                return
+            finally:
+                hdriver.check_seam.force_all = False
+            acc.count("runs")
+            issues, stats = progcheck.check_program(spec, grid, want_coverage=True, results=results)
+            acc.count("paths", stats["paths"])
+            acc.count("pairs", stats["pairs"])
+            acc.count("inputs", stats["inputs"])
+            for i in issues[:1]:
+                acc.violation(f"{i.kind}:{name}:unknown={int(force_all)}", f"{name} (JUMP(calldataload(0)), valid destinations {dests}, every branching answer {'unknown' if force_all else 'truthful'}) "
+                              f"inputs={c01.fmt_inputs(i.inputs)}: {i.kind}: {i.detail[:300]}", {"symjump": True})
+                return
+    acc.state("symbolic-jump")
+
+
 def bounds(tier):
     # (alphabet, L, deviation bound, pair_limit)
     if tier == "quick":
@@ -163,7 +199,7 @@ def bounds(tier):
 
 
 def shards(tier, seed):
-    out = []
+    out = [{"kind": "symjump"}]
     for kind, L, dev, pl in bounds(tier):
         n = len(grammar.statements(kind))
         for i in range(n):
@@ -175,6 +211,10 @@ def run_shard(shard):
     hdriver.install_logging()
     hdriver.install_uid()
     acc = Acc(max_violations=30)
+    if shard["kind"] == "symjump":
+        check_symjump(acc)
+        acc.sample({"program": "JUMP(calldataload(0)) with 2-3 valid destinations under --symbolic-jump", "inputs": "the destinations, their neighbours, 0, 1, code length, 2^255, 2^256-1"})
+        return acc.result()
     n = 0
     for stmts in c01.enumerate_programs(shard["kind"], shard["L"], shard["first"], "quick"):
         for layout in c01.layouts_for(stmts):
@@ -210,6 +250,10 @@ def replay(case):
     hdriver.install_logging()
     hdriver.install_uid()
     acc = Acc()
+    if case.get("symjump"):
+        check_symjump(acc)
+        v = acc.result()["violations"]
+        return {"violated": bool(v), "obs": [x["what"] for x in v][:3]}
     stmts = c01.detuple(case["stmts"])
     force = set(case.get("force") or [])
     spec = c01.mk_spec(stmts, case["layout"], case.get("options"))
